@@ -269,6 +269,17 @@ func deserializeIndex(src io.Reader) (systemFontsIndex, error) {
 		out = append(out, fp)
 	}
 
+	// The gzip checksum is only verified when the stream is read up to its end :
+	// do it to reject a damaged (or incomplete) file, which would otherwise be silently
+	// accepted and reused by the next scans. Nothing is expected after the last entry.
+	n, err := io.Copy(io.Discard, r)
+	if err != nil {
+		return nil, fmt.Errorf("invalid index: %s", err)
+	}
+	if n != 0 {
+		return nil, fmt.Errorf("invalid index: %d unexpected trailing bytes", n)
+	}
+
 	return out, nil
 }
 
